@@ -151,7 +151,7 @@ class Gen:
             p, q = rng.randint(1, 4), rng.choice((1, 1, 2, 3))
             if g == "SgSrc":
                 self.scripts[i * 10 + 1] = gen_script(rng, self.end)
-            if g == "SgSched":
+            if g in ("SgSched", "SgSchedV"):
                 self.tscripts[i * 10 + 1] = gen_tscript(rng, in_start=rng.random() < 0.6)
             if g == "SgDeep":
                 pass
